@@ -185,11 +185,51 @@ Definition st_eq_on (u : list id) (a b : sstate) : bool :=
    4 half-seeded (seed without marker or marker without seed)  5 RebuildIndexes failed
    6 index entries after RebuildIndexes differ from the stored values  7 an index query differs from the
    stored values  8 RebuildIndexes changed stored values *)
-Definition viol_run (g : cfg) (prev : obs) (r : crun) : list N :=
+(* an Init call that returned nil before: the store counts as initialised from then on, whether
+   or not that Init created anything *)
+Fixpoint acked_init (ops : list op) (oks : list bool) : bool :=
+  match ops, oks with
+  | Init _ :: r, ok :: k => ok || acked_init r k
+  | _ :: r, _ :: k => acked_init r k
+  | _, _ => false
+  end.
+(* a later Init (store initialised by then, per the specification state) lists a seed id that holds
+   no value at that moment and is not created afterwards, yet the id holds a value in the end *)
+Fixpoint resurrected (st : sstate) (ops : list op) (o : sstate) : bool :=
+  match ops with
+  | [] => false
+  | x :: r =>
+      (match x with
+       | Init sd => sinit st && existsb (fun iv => negb (isSomeV (sval st (fst iv))) && negb (creates (fst iv) r)
+                                                  && isSomeV (sval o (fst iv))) sd
+       | _ => false
+       end) || resurrected (spec_step st x) r o
+  end.
+
+(* the Init call that initialises the store (first valid one reached with the marker absent, per the
+   specification state): afterwards either no marker and none of the seeds it had to create, or the
+   marker and every seed (unless a later call touched it) *)
+Fixpoint half_seeded (st : sstate) (ops : list op) (o : sstate) : bool :=
+  match ops with
+  | [] => false
+  | x :: r =>
+      match x with
+      | Init sd =>
+          if negb (sinit st) && valid_seeds sd then
+            (negb (sinit o) && existsb (fun iv => negb (isSomeV (sval st (fst iv))) && negb (creates (fst iv) r)
+                                                  && isSomeV (sval o (fst iv))) sd)
+            || (sinit o && existsb (fun iv => negb (existsb (touches (fst iv)) r)
+                                              && negb (isSomeV (sval o (fst iv)))) sd)
+          else half_seeded (spec_step st x) r o
+      | _ => half_seeded (spec_step st x) r o
+      end
+  end.
+
+Definition viol_run (g : cfg) (inited : bool) (prev : obs) (r : crun) : list N :=
   let a := length (r_oks r) in
   let ops1 := firstn (S a) (r_ops r) in
   let u := dedup (flat_map op_ids (r_ops r)) in
-  let s0 := ostate g prev in
+  let s0 := SS (oval g prev) (omark g prev || inited) in
   let sa := spec_run s0 (firstn a (r_ops r)) in
   let sb := spec_run s0 ops1 in
   let o := ostate g (r_obs r) in
@@ -198,18 +238,18 @@ Definition viol_run (g : cfg) (prev : obs) (r : crun) : list N :=
   let sd := seeds_of ops1 in
   (if bad1 then [1] else []) ++
   (if negb bad1 && negb (st_eq_on u o sa) && negb (st_eq_on u o sb) then [2] else []) ++
-  (if sinit s0 && existsb (fun iv => negb (existsb (touches (fst iv)) ops1)
-                                     && negb (ovalue_eq (sval o (fst iv)) (sval s0 (fst iv)))) sd
+  (if (sinit s0 && existsb (fun iv => negb (existsb (touches (fst iv)) ops1)
+                                      && negb (ovalue_eq (sval o (fst iv)) (sval s0 (fst iv)))) sd)
+      || resurrected s0 ops1 o
    then [3] else []) ++
-  (if negb (sinit s0) &&
-      ((negb (sinit o) && existsb (fun iv => negb (isSomeV (sval s0 (fst iv))) && isSomeV (sval o (fst iv))
-                                             && negb (creates (fst iv) ops1)) sd)
-       || (sinit o && existsb (fun iv => negb (isSomeV (sval o (fst iv)))
-                                         && negb (existsb (touches (fst iv)) ops1)) sd))
+  (if half_seeded s0 ops1 o
    then [4] else []).
 
-Fixpoint viol_runs (g : cfg) (prev : obs) (rs : list crun) : list N :=
-  match rs with [] => [] | r :: rest => viol_run g prev r ++ viol_runs g (r_obs r) rest end.
+Fixpoint viol_runs (g : cfg) (inited : bool) (prev : obs) (rs : list crun) : list N :=
+  match rs with
+  | [] => []
+  | r :: rest => viol_run g inited prev r ++ viol_runs g (inited || acked_init (r_ops r) (r_oks r)) (r_obs r) rest
+  end.
 
 Definition wanted_entries (g : cfg) (u : list id) (o : obs) : list bytes :=
   flat_map (fun i => match oval g o i with
@@ -227,7 +267,7 @@ Definition viol_case (cs : ccase) : list N :=
   let g := case_cfg cs in
   let u := dedup (flat_map (fun r => flat_map op_ids (r_ops r)) (c_runs cs)) in
   let o := c_rb_obs cs in
-  viol_runs g [] (c_runs cs) ++
+  viol_runs g false [] (c_runs cs) ++
   (if c_rb_ok cs then [] else [5]) ++
   (if c_rb_ok cs && negb (ids_seteq (wanted_entries g u o) (index_entries g o)) then [6] else []) ++
   (if c_rb_ok cs && negb (forallb (fun q =>
